@@ -177,3 +177,8 @@ def check(P, R, tier):
     R.explanation = EXPLANATION
     R.assumptions = ["verify functions are correct (C04.S2)", "timing of the timer is out of scope"]
     rules(P, R)
+    # "a QC or TC ... assembled from received votes/timeouts": what the aggregator hands to advance_round must be a real
+    # certificate (distinct authors, stake >= quorum): C19.G1/G2 and the >= comparison with the threshold (C17.O6)
+    from ..common import fold
+    fold(R, P, "c19", ("C19.G1", "C19.G2"), "C10.P7", 6)
+    fold(R, P, "c17", ("C17.O1", "C17.O6"), "C10.P7", 8)
